@@ -169,18 +169,19 @@ def afterLoop (pc : PPc) : Bool :=
 /-- `written ++ todo` is the chunk sequence; a pending write has a chunk; the loop is left
     only at the end of the chunks or on `halting` -/
 structure PLoc (cfg : Cfg) (p : Player) : Prop where
-  chunked : p.all = chunksOf p.cs p.audio
+  chunked : p.all = playChunks p.cs p.audio p.fail
   pre : p.written ++ p.todo = p.all
-  wr : p.pc = .write → p.todo ≠ []
+  wr : p.pc = .write → p.todo ≠ [] ∨ p.fail = true
   fin : afterLoop p.pc = true → p.todo = [] ∨ p.halting = true
 
 def AllP (s : State) (P : Player → Prop) : Prop :=
   ∀ (k : Nat) (q : Player), s.players[k]? = some q → P q
 
 theorem loopHead_cases (p : Player) :
-    (p.todo = [] ∧ loopHead p = .finAcq) ∨ (p.todo ≠ [] ∧ loopHead p = .write) := by
+    (p.todo = [] ∧ p.fail = false ∧ loopHead p = .finAcq) ∨
+    ((p.todo ≠ [] ∨ p.fail = true) ∧ loopHead p = .write) := by
   unfold loopHead
-  cases h : p.todo <;> simp
+  cases h : p.todo <;> cases hf : p.fail <;> simp
 
 theorem ploc_stepPlayer (cfg : Cfg) (s s' : State) (i : Nat) (h : stepPlayer cfg s i = some s')
     (inv : AllP s (PLoc cfg)) : AllP s' (PLoc cfg) := by
@@ -191,8 +192,8 @@ theorem ploc_stepPlayer (cfg : Cfg) (s s' : State) (i : Nat) (h : stepPlayer cfg
     have hpi := inv i p hp
     obtain ⟨h0, h1, h2, h3⟩ := hpi
     simp only at h
-    split at h <;> (try split at h) <;> (try cases h) <;> (apply forall_set inv) <;>
-      (rcases loopHead_cases p with ⟨ht, hl⟩ | ⟨ht, hl⟩) <;>
+    split at h <;> (try split at h) <;> (try split at h) <;> (try cases h) <;> (apply forall_set inv) <;>
+      (rcases loopHead_cases p with ⟨ht, hf, hl⟩ | ⟨ht, hl⟩) <;>
       (constructor <;> (try split) <;> simp_all [afterLoop])
 
 theorem AllP_of_players_eq {s s' : State} {P : Player → Prop} (h : s'.players = s.players)
